@@ -189,6 +189,30 @@ add(
     "DESIGN.md section 4, C03",
 )
 
+add(
+    "C17", "exploration",
+    "property-based testing (Hypothesis): row-by-row reconstruction of the info file from the reference model's "
+    "matches, with a domain split around a known finding",
+    "Single-end runs with --info-file over all adapter types (incl. linked), --times, --revcomp, actions, "
+    "pre-adapter trimming and discarding filters: the complete expected file (all twelve columns, every round, ;1/;2 "
+    "rows, -1 rows, rows of discarded reads) is rebuilt from the reads and the matches of the reference model and "
+    "compared line by line. Scenarios that remove bases from the searched 5' end before adapter trimming hit the "
+    "known finding F7 and are checked for the clauses that can still hold.",
+    "Held on everything explored outside known finding F7 (listed in known_findings.json with a narrow signature).",
+    "DESIGN.md section 4, C17",
+)
+add(
+    "C20", "exploration",
+    "property-based testing (Hypothesis): per-adapter tally recomputed from the reference model's applied matches vs "
+    "the JSON report; error-range table vs int(L x rate) (generated + exhaustive grid)",
+    "Runs with --json over all adapter types, --times, actions, --revcomp, --pair-adapters, single/paired, one and two "
+    "cores: matches, removed-length histogram by error count, adjacent bases, 5'/3' split, on_reverse_complement and "
+    "total_matches per adapter and read must equal the tally of the matches actually applied; every reported "
+    "error_lengths table must state int(L x rate) for each L.",
+    "Held on everything explored after repository fix F8.",
+    "DESIGN.md section 4, C20",
+)
+
 NOT_APPLICABLE = []  # filled below for every property without a check
 
 ALL_IDS = [f"C{i:02d}" for i in range(1, 21)]
